@@ -26,7 +26,8 @@ PAREN_TABLE = ['f((a))', 'f(a)', 'f((i for i in j))', 'f(i for i in j)', 'f(((i 
                '@(d)\ndef f(): pass', 'def f(a=(1)) -> (r): pass', 'x: (int) = (1)', '(a).b', '(a)(b)', '(a)[b]', '-(a)', '(a) if (b) else (c)', '[(a) for (b) in (c) if (d)]', '{(a): (b)}',
                '{**(a)}', 'f(*(a), **(b))', 'f(k=(v))', 'print((a), (b))', 'raise (E) from (c)', '(x := 1)', 'f((x := 1))', 'await (a)', 'f"{(a)}"', 'try: pass\nexcept (E): pass',
                'while (a): pass', 'if (a): pass\nelif ((b)): pass', '(\n a # c\n)', '( # c\n (a)\n )', 'é = ((ü)) + ("日本")', 'f((é), (  ü  ))', 'x = a - -b', 'x = not  not a', 'a <  b is  not c not  in d',
-               'x = a if b else (c)', 'with (a, b): pass', 'with (a, b) as c: pass', 'with ((a, b)): pass', 'f(a)(b)((c))', 'x = (\n    a +\n    (b)\n)', 'x = [(\n a\n)]']
+               'x = a if b else (c)', 'def f[K, V: (int, str)](a, b=(1)): pass', 'async def h[A: (int), B: (é, ü)](*, k=(1)) -> (r): pass', 'class C[T: (int, str), U: (x)](B[(T)], m=(n)): pass',
+               'type X[T: (a, b), *Ts] = (list[(T)])', 'def g[*Ts, **P]( x , /, y=(2), *z, w=(3), **k ): pass', 'lambda a=(1), *b, c=(2), **d: (a)', 'with (a, b): pass', 'with (a, b) as c: pass', 'with ((a, b)): pass', 'f(a)(b)((c))', 'x = (\n    a +\n    (b)\n)', 'x = [(\n a\n)]']
 
 
 def offs_table(lines):
@@ -270,6 +271,38 @@ def search_checks(ctx, root, nodes, src, toks, lines, rnd, label, case, parent_o
         ln2 = rnd.randint(ln, min(len(lines) - 1, ln + 2))
         c2 = rnd.randint(c if ln2 == ln else 0, len(lines[ln2]))
         rects.append(((ln, c), (ln2, c2)))
+    # rectangles sharing the start and the END COLUMN of a multi-line node but ending on another line (and the mirrored case)
+    ml = [l for f, l in located if l[2] > l[0]]
+    rnd.shuffle(ml)
+    for l in ml[:25]:
+        for l2 in range(l[0], l[2]):
+            if l[3] <= len(lines[l2]) and (l2, l[3]) > (l[0], l[1]):
+                rects.append(((l[0], l[1]), (l2, l[3])))
+        for l1 in range(l[0] + 1, l[2] + 1):
+            if l[1] <= len(lines[l1]) and (l1, l[1]) < (l[2], l[3]):
+                rects.append(((l1, l[1]), (l[2], l[3])))
+    all_located, all_rects = located, rects
+    subs = [(f, l) for f, l in located if id(f.a) in parent_of and sum(1 for _ in ast.iter_child_nodes(f.a)) >= 2]
+    rnd.shuffle(subs)
+    starts = [(root, located, rects)]
+    for f, l in subs[:5]:
+        mine = []
+        for g, gl in all_located:
+            x = g.a
+            while x is not f.a and id(x) in parent_of:
+                x = parent_of[id(x)]
+            if x is f.a:
+                mine.append((g, gl))
+        rs = [r for r in all_rects if r[0] >= (max(0, l[0] - 1), 0) and r[1] <= (l[2] + 1, 10 ** 9)]
+        rnd.shuffle(rs)
+        starts.append((f, mine, rs[:80]))
+    for start, located, rects in starts:
+        _search_from(ctx, start, located, rects, depth, parent_of, label, case, start is root)
+
+
+def _search_from(ctx, root, located, rects, depth, parent_of, label, case, is_root):
+    if not is_root:
+        ctx.count('search_start_nodes_below_root')
     for (p, q) in rects:
         ln, col, end_ln, end_col = p[0], p[1], q[0], q[1]
         if p == q:
@@ -333,12 +366,11 @@ def search_checks(ctx, root, nodes, src, toks, lines, rnd, label, case, parent_o
                 ctx.violation('find_loc-raised', f'{label}: find_loc raised {type(e).__name__}: {e}', case)
                 continue
             if got is not want:
-                if not exact and got is not None and want is not None:
-                    # documented: find_in_loc is searched inside the container found; accept the first in-loc node inside that container
-                    pass
-                ctx.count('find_loc_differs(info)')
                 if exact:
                     ctx.violation('find_loc-exact-match-differs', f'{label}: find_loc{(ln, col, end_ln, end_col)} exact_top={top} = {got!r}, brute force = {want!r}', dict(case, rect=[ln, col, end_ln, end_col]))
+                else:
+                    # documented preference when there is no exact match: the find_in_loc() answer if there is one, otherwise the find_contains_loc() answer
+                    ctx.violation('find_loc-differs-from-documented-preference', f'{label}: {root!r}.find_loc{(ln, col, end_ln, end_col)} exact_top={top} = {got!r}; no node has exactly this location, find_in_loc (brute force) = {inn!r}, find_contains_loc = {c!r}', dict(case, rect=[ln, col, end_ln, end_col]))
 
 
 def run(ctx):
